@@ -292,5 +292,9 @@ def run(rep, prog, thorough):
     fm = FullMain(prog)
     check_all_separator(rep, fm, "C06.R1.call-sites")
     check_file_output(rep, fm)
+    # the array / object printed by a directory mode is closed on every path only if no per-file failure can escape the
+    # loop (rule shared with C09)
+    from .c09 import check_barriers
+    check_barriers(rep, fm)
     # nothing but the JSON documents reaches stdout: no decoder / library function prints there (rule shared with C09)
     check_decoder_prints(rep, prog, rule="C06.R4.stdout-only-json")
